@@ -288,6 +288,11 @@ pub fn parse_proj(definition: &str) -> Result<String, Error> {
 
     for (step_index, step) in steps.iter().enumerate() {
         let mut elements: Vec<_> = step.split_whitespace().map(|x| x.to_string()).collect();
+        if elements.iter().any(|x| x.starts_with("init=")) {
+            return Err(Error::Unsupported(
+                "parse_proj does not support PROJ init clauses: ".to_string() + step,
+            ));
+        }
 
         // Move the "proj=..." element to the front of the collection, stripped for "proj="
         // and handle the pipeline globals, if any
